@@ -13,6 +13,44 @@ from .guards import class_functions, locks_of, top_function, lambda_site, lambda
 VERIF = os.path.dirname(os.path.dirname(os.path.abspath(__file__)))
 
 
+def accessors_of(fb, cls, field):
+    """names of the const member functions of cls that do nothing but return the value of `field` (`isActive()`)"""
+    out = set()
+    for g in fb.functions(rec=cls, raw=True):
+        if g.kind != "method" or g.params or not g.constm:
+            continue
+        rets = [s for s in g.stmts.values() if s["k"] == "ReturnStmt"]
+        if len(rets) == 1 and g.children(rets[0]) and path(g, g.children(rets[0])[0]) == "this." + field:
+            calls = [s for s in g.stmts.values() if s["k"] in CALLS and (s.get("callee") or {}).get("inrepo")]
+            if not calls:
+                out.add(g.name)
+    return out
+
+
+def reached_only_when_true(f, pos, is_cond):
+    """position pos is reachable only through the TRUE outcome of a dominating branch whose condition (negations
+    stripped and accounted for) satisfies is_cond"""
+    for b in f.blocks.values():
+        t = b.term
+        if not t or not t.get("cond") or len(b.succs) != 2 or b.succs[0] is None or b.succs[1] is None:
+            continue
+        c = unwrap(f, f.s(t["cond"]))
+        neg = False
+        while c is not None and c["k"] == "UnaryOperator" and c.get("op") == "!":
+            neg = not neg
+            c = unwrap(f, f.children(c)[0])
+        if c is None or not is_cond(c):
+            continue
+        if b.id == pos[0] or not f.dominates_block(b.id, pos[0]):
+            continue
+        other = b.succs[0] if neg else b.succs[1]
+        if other == pos[0]:
+            continue
+        if not f.reach_avoiding((other, -1), pos, []):
+            return True
+    return False
+
+
 def runs_only_when_not_unwinding(f, st):
     """statement st (in an inlined destructor) is reached only through the 'no new exception in flight' edge of a test
     `std::uncaught_exceptions() > saved` (any comparison spelling): it does not run when the scope is left by a throw"""
